@@ -9,7 +9,7 @@
    fails, a write is short), every number [k] of atomic effects after which the process is
    killed (each written byte is one effect) and every file system [fs0] that holds FILE. *)
 From Coq Require Import List NArith Bool.
-From Falco Require Import Base.Bytes Model.FsProto Proofs.FsProtoProofs.
+From Falco Require Import Base.Bytes Model.FsProto Model.FsLinks Proofs.FsProtoProofs Proofs.FsLinksProofs.
 Import ListNotations.
 
 Theorem C16_write_atomic : forall (formatted : bytes -> fmt_result) content faults k fs0,
@@ -47,6 +47,17 @@ Theorem C16_protocol_shape : forall out faults,
   (snd (exec 0 faults (fmt_w (FmtOk out))) = 1 /\ quiet (fst (exec 0 faults (fmt_w (FmtOk out)))) = true).
 Proof. exact exec_fmt_w_ok. Qed.
 
+(* names -> inodes -> bytes (Model/FsLinks.v): for every other NAME q of FILE's inode (a hard
+   link, the path a symbolic link resolves through) the bytes read through q are the original
+   ones at every moment of every faulted run; FILE reads original or formatted; original on failure *)
+Theorem C16_links_atomic : forall (formatted : bytes -> fmt_result) content faults k f0 fresh i0,
+  names f0 FILE = Some i0 -> idata f0 i0 = Some content -> names f0 TMP = None -> fresh <> i0 ->
+  let f' := irun fresh (firstn k (inject faults (fmt_w (formatted content)))) f0 in
+  (forall q, q <> FILE -> q <> TMP -> names f0 q = Some i0 -> iread f' q = Some content) /\
+  (iread f' FILE = Some content \/ exists out, formatted content = FmtOk out /\ iread f' FILE = Some out) /\
+  (exit_of faults (formatted content) <> 0 -> iread f' FILE = Some content).
+Proof. exact links_atomic. Qed.
+
 (* the protocol before repository commit e9e7919 (O_TRUNC open before the result exists) *)
 Theorem C16_trunc_first_refuted :
   exists (formatted : bytes -> fmt_result) content faults k fs0,
@@ -73,6 +84,7 @@ Print Assumptions C16_failure_preserves.
 Print Assumptions C16_success_formats.
 Print Assumptions C16_kill_before_rename.
 Print Assumptions C16_protocol_shape.
+Print Assumptions C16_links_atomic.
 Print Assumptions C16_trunc_first_refuted.
 Print Assumptions C16_old_failure_damages.
 Print Assumptions C16_old_midwrite_refuted.
